@@ -218,6 +218,9 @@ class SimpleTypeChecker(walkers.DagWalker):
     def walk_ite(self, formula: FNode, args: List[PySMTType], **kwargs) -> Any:
         assert formula is not None
         if None in args: return None
+        if args[1].is_function_type():
+            # Function symbols are not terms
+            return None
         if (args[0] == BOOL and args[1]==args[2]):
             return args[1]
         return None
